@@ -523,6 +523,11 @@ def c16(tier):
         out.append(Inst('sync_count_%s' % NMT_MODE[mode], 'sync_step.c', defs, unwind=18, unwindset=uw, objbits=10, harness_only=['OP', 'MODE', 'T1'],
                         family='sync_step',
                         bounds='one SYNC in mode %s, one synchronous TPDO: transmission type 1..240 and SYNC counter symbolic (inductive step over SYNC sequences)' % NMT_MODE[mode]))
+    for t1 in (1, 2, 240):
+        defs = dict(NODE_DEFS)
+        defs.update({'OP': 3, 'MODE': 3, 'T1': t1, 'CO_VERIF_SDO_BUF_SEG': 2})
+        out.append(Inst('sync_count2_t%d' % t1, 'sync_step.c', defs, unwind=18, unwindset=uw, objbits=10, harness_only=['OP', 'MODE', 'T1'], family='sync_step',
+                        bounds='one SYNC in OPERATIONAL with two synchronous TPDOs: type of channel 0 symbolic 1..240, channel 1 type %d, both SYNC counters symbolic' % t1))
     # producer timing: sequences with SYNC checking on
     seqs = ['XTTTT', 'YXTTT', 'XYTTT', 'XTYTT', 'XTXTT', 'XNTST', 'XSTNT', 'XRTTT', 'XTRTT', 'YXRTT', 'XWTTT', 'NXGTT'] if tier == 'quick' else \
            ['XTTTT', 'YXTTT', 'XYTTT', 'XTYTT', 'XTXTT', 'XNTST', 'XSTNT', 'XRTTT', 'XTRTT', 'YXRTT', 'XWTTT', 'NXGTT', 'YXTTTT', 'XYTYTT', 'XTTXTT', 'YXTRTT', 'XTTYTT']
@@ -534,12 +539,65 @@ def c16(tier):
     return out
 
 
+def link(idx, sub, bits):
+    return (idx << 16) | (sub << 8) | bits
+
+
+RPDO_MAPS = {
+    'b': [link(0x2100, 0, 8)],
+    'w_b': [link(0x2101, 0, 16), link(0x2100, 0, 8)],
+    'l_w_b': [link(0x2102, 0, 32), link(0x2101, 0, 16), link(0x2100, 0, 8)],
+    'b_l3_w': [link(0x2100, 0, 8), link(0x2102, 0, 24), link(0x2101, 0, 16)],
+    'l_al': [link(0x2102, 0, 32), link(0x2105, 0, 32)],
+    'd8_b': [link(0x0005, 0, 8), link(0x2100, 0, 8)],
+    'b_d16_w': [link(0x2100, 0, 8), link(0x0006, 0, 16), link(0x2101, 0, 16)],
+    'd32_l': [link(0x0007, 0, 32), link(0x2102, 0, 32)],
+    'b_d8_d16_ab': [link(0x2100, 0, 8), link(0x0002, 0, 8), link(0x0003, 0, 16), link(0x2103, 0, 8)],
+    'w_d32_aw': [link(0x2101, 0, 16), link(0x0004, 0, 32), link(0x2104, 0, 16)],
+}
+
+
+def rpdo_inst(mapname, ch=0, t0=254, t1=255, mode=3, seq='R'):
+    m = RPDO_MAPS[mapname]
+    defs = dict(NODE_DEFS)
+    defs.update({'MAP': '{' + ','.join('0x%08X' % x for x in m) + '}', 'MAPN': len(m), 'CH': ch, 'TYPE0': t0, 'TYPE1': t1, 'MODE': mode,
+                 'SEQ': '"%s"' % seq, 'CO_VERIF_SDO_BUF_SEG': 2})
+    uw = node_unwind(2)
+    uw.update(lss_unwind())
+    uw.update({'COSyncInit': 4, 'COSyncHandler': 4, 'COSyncUpdate': 4, 'COSyncRx': 9, 'CORPdoCheck': 4, 'CORPdoReset': 10, 'CORPdoWrite': 10, 'CORPdoGetMap': 10,
+               'COTPdoGetMap': 10, 'COTPdoTx': 10, 'COTmrClear': 4, 'model_apply': 9, 'COEmcyReset': 6})
+    return Inst('rpdo_%s_ch%d_t%d_%d_%s_%s' % (mapname, ch, t0, t1, NMT_MODE[mode], seq), 'rpdo_step.c', defs, unwind=18, unwindset=uw, objbits=10,
+                harness_only=['MAP', 'MAPN', 'CH', 'TYPE0', 'TYPE1', 'MODE', 'SEQ'], family='rpdo_step',
+                bounds='mapping %s on channel %d, channel types %d/%d (255 = invalid), mode %s, sequence %s; payload, dlc, object contents symbolic' % (
+                    mapname, ch, t0, t1, NMT_MODE[mode], seq))
+
+
+def c13(tier):
+    out = []
+    for mn in RPDO_MAPS:
+        out.append(rpdo_inst(mn))                       # asynchronous, immediate
+        out.append(rpdo_inst(mn, t0=1, seq='RS'))       # synchronous: effect at the next SYNC
+    for mode in (2, 4):
+        out.append(rpdo_inst('l_w_b', mode=mode, seq='RF'))
+    out.append(rpdo_inst('l_w_b', seq='FR'))
+    # channel tables: which channels exist, which are synchronous (sync above async included)
+    for ch, t0, t1 in ((1, 255, 254), (1, 254, 254), (1, 254, 1), (0, 1, 254), (1, 1, 1), (1, 255, 1), (0, 240, 255)):
+        seqs = ['R', 'RS'] if (t0 if ch == 0 else t1) > 240 else ['RS', 'S', 'SR', 'RSS', 'SRS', 'RLS', 'RSL', 'RRS', 'LSR']
+        if tier != 'quick' and (t0 if ch == 0 else t1) <= 240:
+            import itertools
+            seqs = sorted(set(seqs + [''.join(t) for n in (1, 2, 3) for t in itertools.product('RSL', repeat=n)]))
+        for sq in seqs:
+            out.append(rpdo_inst('w_b', ch=ch, t0=t0, t1=t1, seq=sq))
+    return out
+
+
 def c01(tier):
     return sdo_step_insts(tier) + sdo_two_servers(tier)
 
 
 PROPS = {
     'C01': c01,
+    'C13': c13,
     'C16': c16,
     'C10': c10,
     'C11': c11,
